@@ -52,6 +52,8 @@ def run(ctx: Ctx, rep: Report) -> None:
     # cached singletons hand (args, kwargs) back to pickle
     from .cached_pickle import newargs
     newargs(ctx, rep)
+    from .cached_pickle import cachekey
+    cachekey(ctx, rep)
     # no equality (or any other test) compares a field with itself
     from ..rules.taut import rule_taut
     rule_taut(ctx, rep, ('bqskit/',), 1000)
